@@ -92,10 +92,14 @@ def bigger_arrays(rng, ir, t, v):
     """stretch arrays of objects to up to 12 items so that two-digit indices occur"""
     if v is None:
         return v
-    if ('array' in t or 'seq' in t) and isinstance(v, list) and v and 'ref' in (t.get('array') or t.get('seq')):
+    if ('array' in t or 'seq' in t) and isinstance(v, list) and v and any(k in (t.get('array') or t.get('seq')) for k in ('ref', 'prim', 'enum')):
         mx = 12 if ('array' in t or t.get('max') == 'unbounded') else t['max']
         n = min(mx, rng.choice((len(v), 11, 12)))
         return [v[i % len(v)] for i in range(n)] if n > len(v) else v
+    if 'ref' in t and isinstance(v, dict) and rng.random() < .5:
+        # (arrays of primitives one level down as well)
+        return dict(v, **{fn: bigger_arrays(rng, ir, ft, v.get(fn)) for fn, ft in gen.all_fields(ir, v.get('__class__', t['ref']))
+                          if ('array' in ft or 'seq' in ft) and any(k in (ft.get('array') or ft.get('seq')) for k in ('prim', 'enum'))})
     return v
 
 
@@ -185,6 +189,8 @@ def run_universe(R, seed, uid, tier):
                     if not sparse:
                         return list(range(n))
                     return sorted(rng.sample(range(0, 40), n))
+                # primitive arrays: repeated key, or numbered entries
+                indices.prims = rng.random() < .5
                 try:
                     pairs = refflat.request_pairs(ir, md, args, delim, indices)
                 except refflat.NotExpressible as e:
@@ -195,7 +201,7 @@ def run_universe(R, seed, uid, tier):
                     perms = [perms[0]] + rng.sample(perms[1:], 11)
                 for pi, perm in enumerate(perms):
                     one_get(R, B, wsgi, ir, md, args, perm, dict(seed=seed, uid=uid, delim=delim, strict=strict, validator=validator,
-                                                                   sparse=sparse, perm=pi), pairs)
+                                                                   sparse=sparse, perm=pi, numbered_prims=indices.prims), pairs)
     object_roundtrip(R, ir, rng, seed, uid, tier)
     primitive_returns(R, ir, rng, seed, uid, tier)
 
